@@ -24,6 +24,8 @@ def run(cx):
     cx.rule("C07.R5", "E3", "the keys of Task::outputs come only from the node's declared outputs, the expose env list (default [data]) and the task's `$outputs` list")
     cx.rule("C07.R6", "K1", "a write reaches every enclosing scope that holds the name: the walk collects all ancestors, the update loop has no early exit, the writer's own data is always set; readers resolve inside the ancestry only")
     r6(cx)
+    cx.rule("C07.R7", "K1", "outputs flow upwards whatever the ending: a reviewing parent takes over the finished child's outputs (review) and a task that ended hands its context values to its own data (next) - under no condition on how the child ended")
+    r7_handover(cx)
     m = cx.m
     pa = Prov(m, "alias")
     pv = Prov(m, "value")
@@ -344,3 +346,42 @@ def r6(cx):
             cx.ob("C07.R6", "%s:ancestry-only" % short_name(g.q).split("<")[0].rstrip(":"), not others and bool(steps), "`%s` reads the task's own data and walks Task::parent only: no value from outside the ancestry" % short_name(g.q), g.loc(), others=[c.q for c in others])
             break
     cx.floor("C07.R6", 6)
+
+
+def r7_handover(cx):
+    """`<Arc<Task>>::review`: `self.update_data(&ctx.task().outputs())` is there and depends only on `is_event_processed`
+    (a child that was submitted, skipped, removed .. ends normally too, and a skipped last act relays the outputs of the acts
+    before it); `<Arc<Task>>::next`: `self.update_data(&ctx.vars())` depends only on the task being terminal"""
+    from rules.c01 import exact_guards
+    from rules.c02 import ARC_TASK_IMPL
+    m = cx.m
+    pa = Prov(m, "alias")
+    pv = Prov(m, "value")
+    for name, src_pat, required, allowed, what in (
+        ("review", r"Task::outputs$", [], [r"^Task::is_event_processed=False$"],
+         "the reviewing task takes over the outputs of the task that just ended (`self.update_data(&ctx.task().outputs())`), whatever state that task ended in"),
+        ("next", r"Context::vars$", [r"^TaskState::is_completed=True$"], [],
+         "a task that has ended writes the values of its context into its data and the enclosing scopes (`self.update_data(&ctx.vars())`) - for every terminal state"),
+    ):
+        f = m.one(ARC_TASK_IMPL + name + "$")
+        sites = []
+        for c in f.calls():
+            if c.q.endswith("Task::update_data") and len(c.args) >= 2:
+                recv = pa.root(f, c.args[0])
+                src = pv.root(f, c.args[1])
+                if recv[0] == "param" and recv[1] == 1 and src[0] == "call" and re.search(src_pat, src[1]):
+                    sites.append((c, src))
+        if not sites:
+            cx.ob("C07.R7", "%s:handover" % name, False, what + " - the call was not found: outputs of acts never reach the step / workflow unless an enclosing scope already holds the name", f.loc())
+            continue
+        c, src = sites[0]
+        ok_src = True
+        if name == "review":
+            # the outputs are those of the context's current task (the child), read before the context is re-targeted
+            who = pa.root(f, Call(f, src[2]).args[0])
+            ok_src = who[0] == "call" and who[1] == T.Q_CTX_TASK
+            st = [x for x in f.calls() if x.q == T.Q_CTX_SET_TASK]
+            ok_src = ok_src and all(not f.can_reach(x.b, Call(f, who[2]).b) for x in st) if ok_src else False
+            cx.ob("C07.R7", "review:source", ok_src, "the outputs taken over are those of the task the context still points to (the finished child), read before `ctx.set_task(self)`", c.loc)
+        exact_guards(cx, "C07.R7", "%s:handover" % name, f, c.b, required, allowed, what, c.loc)
+    cx.floor("C07.R7", 3)
